@@ -414,6 +414,10 @@ type Evidence struct {
 }
 
 func writeEvidence(ev *Evidence) error {
+	if Only != "" {
+		// a debugging run over a subset of the instances is not a record of the check
+		return nil
+	}
 	os.MkdirAll(filepath.Join(VerifDir, "evidence"), 0o755)
 	b, err := json.MarshalIndent(ev, "", " ")
 	if err != nil {
